@@ -8,6 +8,7 @@ mod c06;
 mod c07;
 mod c10;
 mod c11;
+mod c12;
 mod c13;
 mod c14;
 mod refcodec;
@@ -36,6 +37,8 @@ fn main() {
         "c10-replay" => c10::replay(rest),
         "c10-record" => c10::record(rest),
         "c14-replay" => c14::replay(rest),
+        "c12-record" => c12::record(rest),
+        "c03-replay" => c12::c03_replay(rest),
         "c13-grammar" => c13::grammar(rest),
         "c13-local" => c13::local(rest),
         "c11-replay" => c11::replay(rest),
